@@ -515,6 +515,29 @@ def _vec_of(ctx, r):
     return v
 
 
+@model('std::iter::Extend::extend')
+def _(ctx):
+    """vec.extend(iter): the vector followed by everything the iterator yields, in order"""
+    it = ctx.interp
+    r = ctx.args[0]
+    if not isinstance(r, Ref):
+        return NotImplemented
+    v = it.read(ctx.state, r.root, r.path)
+    if not isinstance(v, VecV):
+        return NotImplemented
+    s = to_stream(ctx, ctx.args[1])
+    tail = collect_seq(ctx, s)
+    it.events.append({'kind': 'collect', 'fn': ctx.frame.f['path'] if ctx.frame else None, 'line': ctx.line, 'seq': tail, 'stream': s})
+    if isinstance(v.seq, SeqLit) and not v.seq.elems:
+        new = tail
+    elif isinstance(v.seq, SeqConcat):
+        new = SeqConcat(tuple(v.seq.parts) + (tail,))
+    else:
+        new = SeqConcat((v.seq, tail))
+    it.write(ctx.state, r.root, r.path, VecV(new))
+    return Tup(())
+
+
 @model('<std::vec::Vec<T, A>>::len')
 def _(ctx):
     return ctx.interp.seq_len(_vec_of(ctx, ctx.args[0]).seq)
